@@ -5,7 +5,7 @@
     source are regenerated into Gen/FsWalk_gen.v on every run and the premises [backend_keys_ok], [walk_ok] (and
     the chain parameters) are discharged for them by kernel-checked instance obligations in checks/c19.py. *)
 From Coq Require Import List NArith Bool Permutation.
-From SV Require Import SM.FsChain SM.FsChainProofs SM.FsChainRel SM.FsChainWitness SM.FsChainRaw SM.FsChainCompose SM.FsChainComplete.
+From SV Require Import SM.FsChain SM.FsChainProofs SM.FsChainRel SM.FsChainWitness SM.FsChainRaw SM.FsChainCompose SM.FsChainComplete SM.FsChainNorm.
 Import ListNotations.
 Open Scope N_scope.
 
@@ -52,6 +52,30 @@ Theorem c19_lookup_unnormalised_refuted :
   /\ backend_keys_norm pinned_virtual = false /\ backend_keys_norm pinned_zip = false
   /\ backend_keys_norm fixed_virtual = true /\ lookup fixed_virtual fs [46; 92; 120] = Some ([120], [1]).
 Proof. exact lookup_unnormalised_refuted. Qed.
+
+(** Which spellings that identifies: normpath drops the empty segments (doubled and trailing slashes) and the "."
+    segments of a relative path (".." segments are resolved too, shown by computation and correspondence only) ... *)
+Theorem c19_normpath_noise : forall segs,
+  segs <> [] -> forallb nosl segs = true -> no_dotdot segs = true ->
+  is_prefix [SL] (join_with SL segs) = false -> denoise segs <> [] ->
+  normpath (join_with SL segs) = join_with SL (denoise segs).
+Proof. exact normpath_noise. Qed.
+(** ... so two spellings with the same segments up to that noise, with either slash, are one name for every backend
+    of today's form ("./sub//x/.", "sub\\x" and "sub/x"). *)
+Theorem c19_lookup_noise_insensitive : forall b fs q q' segs segs',
+  backend_keys_norm b = true -> clean_fs fs = true ->
+  slash q = join_with SL segs -> slash q' = join_with SL segs' ->
+  segs <> [] -> forallb nosl segs = true -> no_dotdot segs = true -> is_prefix [SL] (slash q) = false ->
+  segs' <> [] -> forallb nosl segs' = true -> no_dotdot segs' = true -> is_prefix [SL] (slash q') = false ->
+  denoise segs <> [] -> denoise segs = denoise segs' ->
+  lookup b fs q = lookup b fs q' /\ exists_ b fs q = exists_ b fs q' /\ open_ b fs q = open_ b fs q'.
+Proof. exact lookup_noise_insensitive. Qed.
+Example c19_noise_example :
+  let segs := [[46]; [115]; []; [120]; [46]] in
+  join_with SL segs = [46; 47; 115; 47; 47; 120; 47; 46] /\ denoise segs = [[115]; [120]]
+  /\ normpath (join_with SL segs) = [115; 47; 120]
+  /\ normpath [115; 47; 46; 46; 47; 115; 47; 120] = [115; 47; 120].
+Proof. exact noise_example. Qed.
 
 (** Letter case and the two slash characters are insignificant in a query. *)
 Theorem c19_lookup_case_slash_insensitive : forall fs q q', nkey q = nkey q' -> spec_lookup fs q = spec_lookup fs q'.
